@@ -11,6 +11,7 @@ import (
 	"io"
 	"net"
 	"os"
+	"sync"
 	"testing"
 	"time"
 
@@ -40,9 +41,16 @@ type simEnd struct {
 	partialWrites bool
 	fragReads     bool
 	faultsFired   *int
+	// hook, when set (duplex arm), is called at the start of every Read and
+	// Write: the point where the Go scheduler could run this side's OTHER
+	// goroutine (peer.readHandler vs peer.writeHandler share one Machine).
+	hook func(inWrite bool)
 }
 
 func (e *simEnd) Write(p []byte) (int, error) {
+	if e.hook != nil {
+		e.hook(true)
+	}
 	n := len(p)
 	if e.partialWrites && len(p) > 0 && e.r.Chance(1, 3) {
 		n = e.r.Draw(len(p) + 1) // 0..len(p)
@@ -59,6 +67,9 @@ func (e *simEnd) Write(p []byte) (int, error) {
 }
 
 func (e *simEnd) Read(p []byte) (int, error) {
+	if e.hook != nil {
+		e.hook(false)
+	}
 	if len(e.in.buf) == 0 {
 		return 0, io.EOF
 	}
@@ -97,6 +108,7 @@ type noiseSide struct {
 	frames  [][]byte              // ciphertext frames as they went on the wire (attacker arm bookkeeping)
 	readIdx int                   // how many of the peer's plaintexts this side has read
 	rot     int
+	pre     func(writing bool) func() // duplex arm: marks the role busy for the operation
 }
 
 func keyFromTape(t *simcore.Tape) *btcec.PrivateKey {
@@ -117,7 +129,7 @@ func keyFromTape(t *simcore.Tape) *btcec.PrivateKey {
 
 func noiseRun(r *simcore.Run) {
 	t := r.Tape
-	arms := []string{"benign", "benign-long", "handshake-attack", "wrong-static-key", "transport-attack"}
+	arms := []string{"benign", "benign-long", "handshake-attack", "wrong-static-key", "transport-attack", "benign-duplex"}
 	arm := arms[t.CfgDraw(len(arms))]
 	r.Arm = arm
 	initStatic := keyFromTape(t)
@@ -214,6 +226,9 @@ func noiseRun(r *simcore.Run) {
 	}
 	sides := [2]*noiseSide{mk("I", mi, wBA, wAB), mk("R", mr, wAB, wBA)}
 	wires := [2]*simWire{wAB, wBA} // wires[x]: written by side x
+	if arm == "benign-duplex" {
+		installDuplex(r, sides)
+	}
 
 	maxSteps := 60 + 40*t.CfgDraw(4)
 	if arm == "benign-long" {
@@ -287,6 +302,8 @@ func noiseRun(r *simcore.Run) {
 		}
 		r.State(fmt.Sprintf("%d|%d|%d|%d", sides[0].m.sendCipher.nonce/100, sides[1].m.sendCipher.nonce/100, sides[0].rot, sides[1].rot))
 	}
+	// wind-down: no more role switches inside operations
+	sides[0].end.hook, sides[1].end.hook = nil, nil
 	delivered += noiseReadAll(r, sides[0], sides[1])
 	delivered += noiseReadAll(r, sides[1], sides[0])
 	for x := 0; x < 2; x++ {
@@ -308,6 +325,9 @@ func noiseRun(r *simcore.Run) {
 // noiseWrite writes one message with the send-side oracles (nonce
 // discipline, flush accounting).
 func noiseWrite(r *simcore.Run, s *noiseSide, msg []byte, useConnWrite bool) {
+	if s.pre != nil {
+		defer s.pre(true)()
+	}
 	c := &s.m.sendCipher
 	before := nonceKey{c.secretKey, c.nonce}
 	for i := uint64(0); i < 2; i++ {
@@ -379,6 +399,21 @@ func noiseWrite(r *simcore.Run, s *noiseSide, msg []byte, useConnWrite bool) {
 func noiseReadAll(r *simcore.Run, s, peer *noiseSide) int {
 	n := 0
 	for s.readIdx < len(peer.sent) {
+		before := s.readIdx
+		noiseReadOne(r, s, peer)
+		// a nested writer of the peer cannot run here (only s is active),
+		// but a nested reader of s cannot either: exactly one message read
+		n += s.readIdx - before
+	}
+	return n
+}
+
+// noiseReadOne reads the next pending message for reader s.
+func noiseReadOne(r *simcore.Run, s, peer *noiseSide) {
+	if s.pre != nil {
+		defer s.pre(false)()
+	}
+	{
 		want := peer.sent[s.readIdx]
 		if len(s.end.in.buf) < 18+len(want)+16 {
 			r.Fail("lost-bytes", "%s: wire holds %d bytes, next message needs %d", s.name, len(s.end.in.buf), 18+len(want)+16)
@@ -407,9 +442,7 @@ func noiseReadAll(r *simcore.Run, s, peer *noiseSide) int {
 			r.Fail("altered-data", "%s: read %d bytes that differ from message #%d the peer wrote (%d bytes)", s.name, len(got), s.readIdx, len(want))
 		}
 		s.readIdx++
-		n++
 	}
-	return n
 }
 
 // noiseAttack: alter the ciphertext in flight, then let the victim read.
@@ -517,6 +550,116 @@ func noiseAttack(r *simcore.Run, sides [2]*noiseSide, wires [2]*simWire) {
 		vic.readIdx = found + 1
 		r.Count("probe_read_continues_after_error")
 	}
+}
+
+
+// ---- full-duplex arm ---------------------------------------------------
+//
+// peer.readHandler and peer.writeHandler use ONE Machine from two goroutines
+// without a lock: the send path (WriteMessage/Flush) and the receive path
+// (ReadHeader/ReadBody) must not share state. The simulator owns every point
+// at which the runtime could switch between those two goroutines of one side
+// while an operation is in progress - each Read and Write on the pipe and the
+// two buffer-pool Gets inside WriteMessage (through the pools' New callbacks,
+// fresh pools are installed for the run) - and lets the tape decide whether
+// the side's other role makes progress there (a whole message read, or a
+// whole message written). Exactly one goroutine exists; the interleaving is
+// the tape's and replays exactly.
+type duplexState struct {
+	r     *simcore.Run
+	sides [2]*noiseSide
+	busyR [2]bool
+	busyW [2]bool
+	// nested writes are bounded (a fragmented read of a large message offers
+	// thousands of switch points): at most 2 per read operation, 60 per run
+	wInOp  int
+	wInRun int
+}
+
+func installDuplex(r *simcore.Run, sides [2]*noiseSide) {
+	d := &duplexState{r: r, sides: sides}
+	origH, origB := headerBufferPool, bodyBufferPool
+	r.Cleanup(func() { headerBufferPool, bodyBufferPool = origH, origB })
+	cur := -1 // side whose WriteMessage is running (pool Gets are its)
+	headerBufferPool = &sync.Pool{New: func() interface{} {
+		if cur >= 0 {
+			d.other(cur, true, "pool-get-header")
+		}
+		b := make([]byte, 0, encHeaderSize)
+		return &b
+	}}
+	bodyBufferPool = &sync.Pool{New: func() interface{} {
+		if cur >= 0 {
+			d.other(cur, true, "pool-get-body")
+		}
+		b := make([]byte, 0, maxMessageSize)
+		return &b
+	}}
+	for x := 0; x < 2; x++ {
+		x := x
+		sides[x].end.hook = func(inWrite bool) {
+			if inWrite {
+				d.other(x, true, "pipe-write")
+			} else {
+				d.other(x, false, "pipe-read")
+			}
+		}
+		sides[x].pre = func(writing bool) func() {
+			// called by noiseWrite / noiseReadOne around the operation
+			if writing {
+				d.busyW[x] = true
+				prev := cur
+				cur = x
+				// drop pooled buffers so that the next Gets call New
+				headerBufferPool = &sync.Pool{New: headerBufferPool.New}
+				bodyBufferPool = &sync.Pool{New: bodyBufferPool.New}
+				return func() { d.busyW[x] = false; cur = prev }
+			}
+			d.busyR[x] = true
+			d.wInOp = 0
+			return func() { d.busyR[x] = false }
+		}
+	}
+}
+
+// other lets side x's other role run at a switch point inside an operation of
+// its writing (fromWriter) or reading role.
+func (d *duplexState) other(x int, fromWriter bool, where string) {
+	r := d.r
+	s, peer := d.sides[x], d.sides[1-x]
+	if fromWriter {
+		if d.busyR[x] || s.readIdx >= len(peer.sent) {
+			return
+		}
+		if len(s.end.in.buf) < 18+len(peer.sent[s.readIdx])+16 {
+			return // the next inbound frame is not completely on the wire
+		}
+		if !r.Chance(1, 2) {
+			return
+		}
+		r.Count("fault_duplex_read_inside_write")
+		r.Count("probe_duplex_at_" + where)
+		r.Logf("%s: reader runs inside the writer at %s", s.name, where)
+		noiseReadOne(r, s, peer)
+		return
+	}
+	if d.busyW[x] || d.wInOp >= 2 || d.wInRun >= 60 || !r.Chance(1, 4) {
+		return
+	}
+	d.wInOp++
+	d.wInRun++
+	size := r.Draw(400)
+	if r.Draw(8) == 0 {
+		size = []int{0, 1, 65535}[r.Draw(3)]
+	}
+	msg := make([]byte, size)
+	if size > 0 {
+		r.Tape.Bytes(msg)
+	}
+	r.Count("fault_duplex_write_inside_read")
+	r.Count("probe_duplex_at_" + where)
+	r.Logf("%s: writer runs inside the reader at %s (%d bytes)", s.name, where, size)
+	noiseWrite(r, s, msg, r.Draw(4) == 3)
 }
 
 // TestRun is the worker entry point (never returns).
